@@ -1,6 +1,7 @@
 package engines
 
 import (
+	"encoding/json"
 	"fmt"
 	"syscall"
 	"sort"
@@ -341,6 +342,22 @@ func agentStatus(t *testing.T, tp *simrt.Tape, cfg simrt.Config, sc *agentScenar
 				return simrt.Fault{Kind: simrt.FKillBefore}
 			}
 			return simrt.Fault{Kind: simrt.FKillAfter}
+		}
+	}
+	if !crash && chance(tp, 1, 3) {
+		// fault "accept_error": one accept(2) on the run's status socket fails with a transient error (the
+		// process is momentarily out of descriptors); the run must stay reachable and be reported live
+		acceptErrAt := tp.Draw(simrt.SFault, 4)
+		nAccept := 0
+		cfg.FaultPlan = func(op *simrt.OpInfo) simrt.Fault {
+			if op.Kind != "accept" || first == nil || op.Proc != first.proc {
+				return simrt.Fault{}
+			}
+			nAccept++
+			if nAccept-1 != acceptErrAt {
+				return simrt.Fault{}
+			}
+			return simrt.Fault{Kind: simrt.FErr, Errno: syscall.EMFILE}
 		}
 	}
 	path := dagPath(sc.Dag)
@@ -1112,14 +1129,19 @@ func agentRetry(t *testing.T, tp *simrt.Tape, cfg simrt.Config, sc *agentScenari
 			close(releaseCh)
 		}
 	}
-	if sc.FirstEnd == "kill" {
-		cfg.FaultPlan = func(op *simrt.OpInfo) simrt.Fault {
-			if killed || first == nil || op.Proc != first.proc || op.Index != sc.KillAt {
-				return simrt.Fault{}
-			}
-			killed = true
-			return simrt.Fault{Kind: simrt.FKillBefore}
+	decoy := chance(tp, 1, 4)
+	decoyPath := ""
+	decoyErr := pick2(tp, syscall.ENOENT, syscall.EIO)
+	cfg.FaultPlan = func(op *simrt.OpInfo) simrt.Fault {
+		if decoyPath != "" && op.Kind == "open" && op.Path == decoyPath && retry != nil && op.Proc == retry.proc {
+			op.Proc.W.CountFault("history_file_vanishes")
+			return simrt.Fault{Kind: simrt.FErr, Errno: decoyErr}
 		}
+		if sc.FirstEnd != "kill" || killed || first == nil || op.Proc != first.proc || op.Index != sc.KillAt {
+			return simrt.Fault{}
+		}
+		killed = true
+		return simrt.Fault{Kind: simrt.FKillBefore}
 	}
 	path := dagPath(sc.Dag)
 	var recorded *model.Status
@@ -1166,6 +1188,18 @@ func agentRetry(t *testing.T, tp *simrt.Tape, cfg simrt.Config, sc *agentScenari
 			ed := cloneSpec(sc.Dag)
 			ed.Steps = append(ed.Steps, StepSpec{Name: "added_later", RetryLimit: -1, DurMs: []int{0}})
 			fsOf(w).PutFile(path, []byte(ed.YAML()), 0o644)
+		}
+		if decoy {
+			// fault "history_file_vanishes": the DAG has the record of another run that sorts before the
+			// recorded one in the retry's lookup; it is listed, but gone (ENOENT) or unreadable (EIO) when the
+			// retry opens it — as when another agent compacts or cleans up at that moment. The recorded run is
+			// intact: the retry must find it all the same
+			other := *recorded
+			other.RequestID = "zzzzzzzz-0000-4000-8000-000000000000"
+			if b, err := json.Marshal(&other); err == nil {
+				decoyPath = strings.Replace(recordedFile, recorded.RequestID[:8], "zzzzzzzz", 1)
+				fsOf(w).PutFile(decoyPath, append(b, '\n'), 0o644)
+			}
 		}
 		retry = cw.run(sc.Second, nil, "retry", "--req="+recorded.RequestID, path)
 		retryEnded = waitProcTimeout(retry.proc, 20*time.Minute)
